@@ -145,13 +145,15 @@ def _kf_anomalous_day(z, x_fields, op, unit, res_n):
     return False
 
 
-def check_op(acc, pendulum, z, x, xf, op, unit, wd, nth, keep_time=False):
+def check_op(acc, pendulum, z, x, xf, op, unit, wd, nth, keep_time=False, foreign_kind=None):
     """z: zone name / None (naive) / 'date'.  x: receiver.  xf: its fields (7-tuple, zeros for Date)."""
     y, m, d = xf[:3]
     n = calref.days_from_civil(y, m, d)
     exp = expected_date(op, n, y, m, unit, wd, nth)
     case = {"kind": "op", "z": z, "f": list(xf), "fold": getattr(x, "fold", 0), "op": op, "unit": unit, "wd": wd, "ws": _WS[0],
             "nth": nth, "keep": keep_time}
+    if foreign_kind:
+        case["foreign"] = list(foreign_kind)
     if exp != "raise":
         ey = calref.civil_from_days(exp)[0]
         if not (2 <= ey <= 9998):
@@ -191,8 +193,11 @@ def check_op(acc, pendulum, z, x, xf, op, unit, wd, nth, keep_time=False):
         if type(r) is not pendulum.Date:
             acc.mismatch(sub, "type", case, type(r).__name__, "Date")
         return
-    if type(r) is not pendulum.DateTime or r.timezone_name != x.timezone_name:
-        acc.mismatch(sub, "zone-or-type", case, [type(r).__name__, r.timezone_name], ["DateTime", x.timezone_name])
+    want_name = x.timezone_name
+    if want_name is None and x.tzinfo is not None:       # foreign tzinfo: kept as its pendulum equivalent
+        want_name = z if isinstance(z, str) else _tz(pendulum, z).name
+    if type(r) is not pendulum.DateTime or r.timezone_name != want_name:
+        acc.mismatch(sub, "zone-or-type", case, [type(r).__name__, r.timezone_name], ["DateTime", want_name])
         return
     want_t = tuple(xf[3:7]) if keep_time else (0, 0, 0, 0)
     wall = ed + want_t
@@ -310,6 +315,30 @@ def _run_shard(shard, pendulum):
                                     check_op(acc, pendulum, z, x, xf, op, unit, wd, nth, keep)
             if trs:
                 acc.sample({"zone": z, "anomalous_midnight_transition": obs.iso(trs[0][0] * US)})
+    elif k == "foreign":
+        # receivers whose tzinfo is not a pendulum timezone: a zoneinfo object (kept as the named zone), a stdlib fixed
+        # offset and a DST-aware tzinfo without a key (kept as the offset in force at the receiver) - also inside the
+        # repeated hour, where the fold decides that offset
+        from .. import foreign
+        menu = [o for o in ops_for(False, True) if o[1] in (None, "month") and o[2] in (None, 0, 3, 6)]
+        for zn in shard["zones"]:
+            trs = [tr for tr in seeds.zone_transitions(zn) if 1546300800 < tr[0] < 1672531200]
+            for t, ob, oa in trs:
+                for dlt in (-3 * 86400, -1800, 0, 1800, 3 * 86400 + 5):
+                    inst = (t + dlt) * US + 250000
+                    f, xo = obs.expected_render(zn, inst)
+                    sol = tzref.zone(zn).solve(obs.wall_us(f) // US)
+                    fold = 1 if (len(sol) == 2 and sol[1] * US + 250000 == inst) else 0
+                    for kind, zz, tzi in (("keyless", xo, foreign.keyless(zn)), ("stdlib", xo, foreign.fixed(xo)), ("zoneinfo", zn, foreign.zi(zn))):
+                        x = pendulum.DateTime(*f, tzinfo=tzi, fold=fold)
+                        if obs.instant_us(x) != inst:
+                            acc.c["seed_not_canonical"] += 1
+                            continue
+                        acc.c["states"] += 1
+                        acc.c["nontrivial"] += 1
+                        for op, unit, wd, nth, keep in menu:
+                            check_op(acc, pendulum, zz, x, f, op, unit, wd, nth, keep, foreign_kind=(kind, zn))
+        acc.sample({"foreign_tzinfo_receivers_in": shard["zones"], "kinds": ["keyless DST tzinfo", "datetime.timezone", "zoneinfo"]})
     return acc.result()
 
 
@@ -321,11 +350,17 @@ def replay_case(case, acc):
         x = pendulum.Date(*f[:3])
     elif z is None:
         x = pendulum.DateTime(*f)
+    elif case.get("foreign"):
+        from .. import foreign
+        kind, zn = case["foreign"]
+        tzi = {"keyless": lambda: foreign.keyless(zn), "stdlib": lambda: foreign.fixed(z), "zoneinfo": lambda: foreign.zi(zn)}[kind]()
+        x = pendulum.DateTime(*f, tzinfo=tzi, fold=case.get("fold", 0))
     else:
         x = pendulum.DateTime.create(*f, tz=_tz(pendulum, z), fold=case.get("fold", 1))
     _set_week(pendulum, case.get("ws", 0))
     try:
-        check_op(acc, pendulum, z, x, f, case["op"], case["unit"], case["wd"], case["nth"], case["keep"])
+        check_op(acc, pendulum, z, x, f, case["op"], case["unit"], case["wd"], case["nth"], case["keep"],
+                 foreign_kind=tuple(case["foreign"]) if case.get("foreign") else None)
     finally:
         _set_week(pendulum, 0)
 
@@ -340,6 +375,7 @@ def plan(tier, seed):
     shards = [{"kind": "zones", "zones": ch, "limit": 0 if thorough else 2, "seed": seed, "witness": wz,
                "thorough": thorough} for ch in seeds.chunks(zones, 200)]
     shards += [{"kind": "calendar", "months": ch, "thorough": thorough} for ch in seeds.chunks(months, 128)]
+    shards.append({"kind": "foreign", "zones": ["Europe/Paris", "America/New_York", "Australia/Lord_Howe"], "thorough": thorough})
     # the same navigation under other first-days-of-the-week (a process-wide setting the results must not depend on)
     wmonths = [(y, m) for y in (range(2000, 2028) if thorough else (2023, 2024)) for m in range(1, 13)]
     for ws in ((1, 2, 3, 4, 5, 6) if thorough else (6, 3 + seed % 3)):
